@@ -8,13 +8,15 @@ OV_READER = {"fs/reader/verif_verify.go": "fs/reader/verif_verify.go",
              "fs/reader/verif_verify_test.go": "fs/reader/verif_verify_test.go"}
 OV_LAYER = {"fs/layer/verif_verifylayer_test.go": "fs/layer/verif_verifylayer_test.go",
             "fs/reader/verif_verify.go": "fs/reader/verif_verify.go"}
+OV_DB = {"fs/reader/verif_verify.go": "fs/reader/verif_verify.go",
+         "cmd/containerd-stargz-grpc/db/verif_c01_test.go": "cmd/containerd-stargz-grpc/db/verif_c01_test.go"}
 PROPS = ["MountImpliesToc", "ServedAreGood", "NoBadStaysCached", "FailedReadLeavesNothing"]
-STAGES = set((os.environ.get("C01_STAGES") or "mc,negctl,replay,layer,free,sweep").split(","))
+STAGES = set((os.environ.get("C01_STAGES") or "mc,negctl,replay,layer,free,sweep,db").split(","))
 
-GEN_READER = {"NRd": "1", "MaxVerify": "1", "Tocs": '{"D"}', "Kinds": '{"s"}', "Args": '{"D"}'}
-GEN_READER_X = {"NWk": "1", "NRd": "1", "MaxVerify": "1"}      # altered TOC / wrong digest / broken streams, one worker
+GEN_READER = {"NRd": "1", "MaxVerify": "2", "Tocs": '{"D"}', "Kinds": '{"s"}', "Args": '{"D"}'}   # MaxVerify=2: a failed VerifyTOC is retried on the same reader
+GEN_READER_X = {"NWk": "1", "NRd": "1", "MaxVerify": "2"}      # altered TOC / wrong digest / broken streams, one worker
 GEN_READER_X_THOROUGH = {"NWk": "1", "NRd": "2", "MaxVerify": "2", "MaxAlter": "2"}
-GEN_READER_THOROUGH = {"NRd": "1", "MaxVerify": "1"}
+GEN_READER_THOROUGH = {"NRd": "1", "MaxVerify": "2"}
 GEN_PASS = {"NWk": "1", "NRd": "2", "MaxVerify": "1", "Tocs": '{"D"}', "Args": '{"D"}', "WithPass": "TRUE", "WithTry": "FALSE", "Kinds": '{"s"}'}
 GEN_LAYER = {"NWk": "0", "NRd": "2", "MaxAlter": "1", "MaxVerify": "3", "AtomicVerify": "TRUE", "WithSkip": "TRUE", "WithTry": "FALSE"}
 GEN_LAYER_THOROUGH = {"NWk": "0", "NRd": "3", "MaxAlter": "2", "MaxVerify": "3", "AtomicVerify": "TRUE", "WithSkip": "TRUE", "WithTry": "FALSE"}
@@ -112,7 +114,7 @@ def check(run):
         "concurrent Mount calls racing on layer.r / reader.verify of one layer object are not modelled (Verify/SkipVerify calls on one layer are sequential)",
         "free-run and sweep traces are decided by the monitor only (no conformance spec of the free interleaving)",
         "ground truth of the TOC in altered blobs (sweep): 'does not hash to D' only when the driver can extract it and its digest differs",
-        "in-memory metadata store only (the db store of the cmd module is not driven)",
+        "db metadata store: driven with the one-worker and passthrough graphs, a shorter free run and a coarser sweep; the two-worker gated graph and the layer histories use the memory store",
     ]
     t0 = time.time()
     # ------------------------------------------------------------------ M
@@ -168,6 +170,22 @@ def check(run):
         rc, out = run.go_driver("", "./fs/reader/", OV_READER, "^TestVerifC01(%s)$" % "|".join(tests), env=env, timeout=3000)
         if rc != 0:
             report_race(run, out, "fs/reader", "+".join(tests))
+    dbjobs = [j for j in jobs if j["name"] in ("gated1", "pass")] if "db" in STAGES else []
+    dbtests = [t for t in tests if t != "Replay" or dbjobs] if "db" in STAGES else []
+    if dbtests:
+        # the same driver body against the bolt metadata store (cmd module): the one-worker and passthrough graphs, a shorter free run and sweep
+        denv = dict(env)
+        if dbjobs:
+            inp = os.path.join(run.scratch, "walks_db.json")
+            write_json(inp, dbjobs)
+            denv["VERIF_IN"] = inp
+        if "VERIF_FREE_TRACES" in denv:
+            denv["VERIF_FREE_TRACES"] = "300" if thorough else "30"
+        if "VERIF_SWEEP_STRIDE" in denv:
+            denv["VERIF_SWEEP_STRIDE"] = "7" if thorough else "251"
+        rc, out = run.go_driver("cmd", "./containerd-stargz-grpc/db/", OV_DB, "^TestVerifC01(%s)$" % "|".join(dbtests), env=denv, timeout=3000)
+        if rc != 0:
+            report_race(run, out, "db", "+".join(dbtests))
     if ljob:
         inp = os.path.join(run.scratch, "walks_layer.json")
         write_json(inp, [ljob])
@@ -182,6 +200,8 @@ def check(run):
         if validate(run, path, "replay-" + j["name"], j["ov"], None):
             trs = [t for s, t in split_traces(read_ndjson(path)) if any(e.get("ev") == "Read" and e.get("res") == "verr" for e in t)]
             run.add_samples([{"mode": "replay-" + j["name"], "events": slim(t, 16)} for t in trs[:1]], limit=2)
+    for j in dbjobs:
+        validate(run, j["out"] + ".db", "replay-" + j["name"] + "-db", j["ov"], None)
     if ljob:
         if validate(run, ljob["out"], "replay-layer", ljob["ov"], None):
             trs = [t for s, t in split_traces(read_ndjson(ljob["out"])) if sum(1 for e in t if e.get("ev") in ("LayerVerify", "LayerSkip")) >= 2]
@@ -193,6 +213,10 @@ def check(run):
             run.add_samples([{"mode": "free-run", "events": slim(t, 10)} for t in trs[:1]], limit=4)
     if "sweep" in STAGES:
         validate(run, sweep + ".memory", "sweep", None, big, conformance=False)
+    if "db" in STAGES and "free" in STAGES:
+        validate(run, free + ".db", "free-run-db", None, big, conformance=False)
+    if "db" in STAGES and "sweep" in STAGES:
+        validate(run, sweep + ".db", "sweep-db", None, big, conformance=False)
     log("[time] validation done at %.0fs" % (time.time() - t0))
     run.cov["exhaustive"] = exhaustive and {"replay", "layer"} <= STAGES
 
